@@ -370,6 +370,9 @@ pub fn check(case: &Case, idx: u64, acc: &mut Acc) {
                 v
             };
             for z in days {
+                if base_h.contains(&z) {
+                    continue; // adding the date both calendars already close changes nothing
+                }
                 acc.evals_add(3);
                 acc.nontrivial();
                 let mut h = base_h.clone();
